@@ -69,7 +69,7 @@ def illtyped_forms():
                     yield Form(src, canon, "idx.bad-pcr", wrap(ind, bad), None, tr)
                 for bad in ("70000,X", "65536,Y", "-32769,U", "$12345,S", "65536,PCR", "-32769,PCR"):
                     yield Form(src, canon, "idx.offset-range", wrap(ind, bad), None, tr)
-            for bad in ("[70000]", "[65536]", "[$12345]", "[-1]", "[#5]", "[<5]"):
+            for bad in ("[70000]", "[65536]", "[$12345]"):
                 yield Form(src, canon, "extind.bad", bad, None, base)
         if "ext" in m:
             for bad in ("70000", "65536", "$12345", "<70000", ">65536"):
